@@ -176,7 +176,7 @@ RoundTrip == st = "done" => /\ Disjoint(A)
 (* ---- G: emission -----------------------------------------------------------*)
 RECURSIVE SeqOfSet(_)
 SeqOfSet(S) == IF S = {} THEN <<>> ELSE LET m == CHOOSE x \in S : TRUE IN <<m>> \o SeqOfSet(S \ {m})
-SeedRange == 0..511
+SeedRange == 0..127
 QueryAddrs(R) ==
   UNION {LET p == R.ph[k] IN
          { SubD(p.p_vaddr, <<1>>), p.p_vaddr, AddD(p.p_vaddr, SubD(p.p_filesz, <<1>>)), AddD(p.p_vaddr, p.p_filesz),
